@@ -50,6 +50,15 @@ Inductive pc :=
 
 Record thread := mkThread { prog : list qop; tpc : pc; results : list res }.
 
+(* ghost state: nodes in the order they were linked (starting with the initial sentinel), the values
+   and the linking threads in link order, the values taken by successful head CASes in CAS order *)
+Record ghost := mkGhost {
+  g_chain : list nat;
+  g_enq : list V;
+  g_tids : list nat;
+  g_deq : list (option V)
+}.
+
 Record state := mkState {
   nodes : nat -> node;
   nalloc : nat;
@@ -60,10 +69,13 @@ Record state := mkState {
   released : list nat;
   hazard : bool;
   threads : nat -> thread;
-  chain : list nat;
-  enq_log : list V;
-  deq_log : list (option V)
+  gh : ghost
 }.
+
+Notation chain s := (g_chain (gh s)).
+Notation enq_log s := (g_enq (gh s)).
+Notation enq_tids s := (g_tids (gh s)).
+Notation deq_log s := (g_deq (gh s)).
 
 Definition upd {A} (f : nat -> A) (k : nat) (a : A) : nat -> A :=
   fun x => if Nat.eqb x k then a else f x.
@@ -72,11 +84,11 @@ Definition dnode := mkNode None None.
 
 Definition init (progs : list (list qop)) : state :=
   mkState (fun _ => dnode) 1 0 0 0%Z [] [] false
-          (fun i => mkThread (nth i progs []) PIdle []) [0] [] [].
+          (fun i => mkThread (nth i progs []) PIdle []) (mkGhost [0] [] [] []).
 
 Definition set_thread (s : state) (tid : nat) (th : thread) : state :=
   mkState (nodes s) (nalloc s) (qhead s) (qtail s) (qlen s) (pool s) (released s) (hazard s)
-          (upd (threads s) tid th) (chain s) (enq_log s) (deq_log s).
+          (upd (threads s) tid th) (gh s).
 
 Definition set_pc (s : state) (tid : nat) (p : pc) : state :=
   let th := threads s tid in set_thread s tid (mkThread (prog th) p (results th)).
@@ -86,7 +98,7 @@ Definition finish (s : state) (tid : nat) (r : res) : state :=
 
 Definition set_nodes (s : state) (f : nat -> node) : state :=
   mkState f (nalloc s) (qhead s) (qtail s) (qlen s) (pool s) (released s) (hazard s)
-          (threads s) (chain s) (enq_log s) (deq_log s).
+          (threads s) (gh s).
 
 Definition set_next (s : state) (x : nat) (nx : option nat) : state :=
   set_nodes s (upd (nodes s) x (mkNode nx (nval (nodes s x)))).
@@ -96,34 +108,37 @@ Definition set_val (s : state) (x : nat) (v : option V) : state :=
 
 Definition alloc (s : state) (nd : node) : state :=
   mkState (upd (nodes s) (nalloc s) nd) (S (nalloc s)) (qhead s) (qtail s) (qlen s) (pool s)
-          (released s) (hazard s) (threads s) (chain s) (enq_log s) (deq_log s).
+          (released s) (hazard s) (threads s) (gh s).
 
 Definition set_head (s : state) (h : nat) : state :=
   mkState (nodes s) (nalloc s) h (qtail s) (qlen s) (pool s) (released s) (hazard s)
-          (threads s) (chain s) (enq_log s) (deq_log s).
+          (threads s) (gh s).
 
 Definition set_tail (s : state) (t : nat) : state :=
   mkState (nodes s) (nalloc s) (qhead s) t (qlen s) (pool s) (released s) (hazard s)
-          (threads s) (chain s) (enq_log s) (deq_log s).
+          (threads s) (gh s).
 
 Definition add_len (s : state) (d : Z) : state :=
   mkState (nodes s) (nalloc s) (qhead s) (qtail s) (qlen s + d)%Z (pool s) (released s) (hazard s)
-          (threads s) (chain s) (enq_log s) (deq_log s).
+          (threads s) (gh s).
 
 Definition set_pool (s : state) (p rel : list nat) : state :=
   mkState (nodes s) (nalloc s) (qhead s) (qtail s) (qlen s) p rel (hazard s)
-          (threads s) (chain s) (enq_log s) (deq_log s).
+          (threads s) (gh s).
 
-(* ghost: the link CAS succeeded *)
-Definition log_enq (s : state) (n : nat) : state :=
+Definition set_gh (s : state) (g : ghost) : state :=
   mkState (nodes s) (nalloc s) (qhead s) (qtail s) (qlen s) (pool s) (released s) (hazard s)
-          (threads s) (chain s ++ [n])
-          (enq_log s ++ [match nval (nodes s n) with Some v => v | None => 0 end]) (deq_log s).
+          (threads s) g.
+
+(* ghost: thread tid's link CAS succeeded *)
+Definition log_enq (s : state) (tid n : nat) : state :=
+  set_gh s (mkGhost (chain s ++ [n])
+                    (enq_log s ++ [match nval (nodes s n) with Some v => v | None => 0 end])
+                    (enq_tids s ++ [tid]) (deq_log s)).
 
 (* ghost: the head CAS succeeded *)
 Definition log_deq (s : state) (nx : nat) : state :=
-  mkState (nodes s) (nalloc s) (qhead s) (qtail s) (qlen s) (pool s) (released s) (hazard s)
-          (threads s) (chain s) (enq_log s) (deq_log s ++ [nval (nodes s nx)]).
+  set_gh s (mkGhost (chain s) (enq_log s) (enq_tids s) (deq_log s ++ [nval (nodes s nx)])).
 
 Definition memb (x : nat) (l : list nat) : bool := existsb (Nat.eqb x) l.
 
@@ -132,7 +147,7 @@ Definition memb (x : nat) (l : list nat) : bool := existsb (Nat.eqb x) l.
    sees from then on depends on whether and to whom the pool re-issues the node *)
 Definition touch (s : state) (x : nat) : state :=
   mkState (nodes s) (nalloc s) (qhead s) (qtail s) (qlen s) (pool s) (released s)
-          (hazard s || memb x (released s)) (threads s) (chain s) (enq_log s) (deq_log s).
+          (hazard s || memb x (released s)) (threads s) (gh s).
 
 Fixpoint remove_nth {A} (k : nat) (l : list A) : list A :=
   match l, k with
@@ -180,7 +195,7 @@ Definition step (rc : bool) (s : state) (tid : nat) (o : option nat) : state * l
   | PEnqLink n t =>
       let s := touch s t in
       match nnext (nodes s t) with
-      | None => (set_pc (log_enq (set_next s t (Some n)) n) tid (PEnqSwing n t), LCas)
+      | None => (set_pc (log_enq (set_next s t (Some n)) tid n) tid (PEnqSwing n t), LCas)
       | Some _ => (set_pc s tid (PEnqLoadTail n), LCas)
       end
   | PEnqSwing n t =>
